@@ -98,15 +98,17 @@ static int reassemble(struct websocket *s, uint8_t *msg, size_t length)
 			strm->avail_in = memory - 4;
 			write_int_to_array(strm->next_in, memory);
 		}
-		if (strm->avail_in <= length + 4) {
+		while (strm->avail_in <= length + 4) {
 			unsigned int next_size = read_int_from_array(strm->next_in) * 2;
-			strm->next_in = realloc(strm->next_in, next_size);
-			if (unlikely(strm->next_in == NULL)) {
+			uint8_t *grown = realloc(strm->next_in, next_size);
+			if (unlikely(grown == NULL)) {
 				log_err("Reassemble: Not enough memory for realloc!");
-				strm->avail_in = 0;
 				free(strm->next_in);
+				strm->next_in = NULL;
+				strm->avail_in = 0;
 				return -1;
 			}
+			strm->next_in = grown;
 			strm->avail_in += next_size / 2;
 			write_int_to_array(strm->next_in, next_size);
 		}
